@@ -193,6 +193,44 @@ func sortStrings(xs []string) {
 	}
 }
 
+// gangCorpus: hierarchical victims that can be put back only in part, under preempt, reclaim and consolidation.
+func gangCorpus() []Cluster {
+	var out []Cluster
+	victim := func(queue string, small, large int64) Job {
+		j := Job{Name: "victim", Queue: queue, Priority: 50, MinMember: 4, AgeMinutes: 30, StartedMins: 60,
+			SubGroups: []SubGroup{{Name: "ga"}, {Name: "gb"}, {Name: "a", MinMember: 2, Parent: "ga"}, {Name: "b", MinMember: 2, Parent: "gb"}}}
+		for k := 0; k < 4; k++ {
+			p := core.PodSpec{Name: fmt.Sprintf("victim-%d", k), Cpu: 250, Mem: 1 << 30, Gpus: small, SubGroup: "a",
+				Status: pod_status.Running, Node: "n1"}
+			if k >= 2 {
+				p.Gpus, p.SubGroup = large, "b"
+			}
+			j.Pods = append(j.Pods, p)
+		}
+		return j
+	}
+	taker := func(queue string, prio int32, gpus int64) Job {
+		return Job{Name: "taker", Queue: queue, Priority: prio, MinMember: 1, AgeMinutes: 5, StartedMins: 5,
+			Pods: []core.PodSpec{{Name: "taker-0", Cpu: 250, Mem: 1 << 30, Gpus: gpus, Status: pod_status.Pending}}}
+	}
+	node := func(gpus int64) []core.NodeSpec {
+		return []core.NodeSpec{{Name: "n1", Cpu: 16000, Mem: 64 << 30, Gpus: gpus, Pods: 110}}
+	}
+	for _, acts := range [][]string{{"allocate", "preempt"}, {"allocate", "consolidation", "reclaim", "preempt", "stalegangeviction"}} {
+		// preempt inside one queue: the taker needs 4 of 8 GPUs, 2 are idle
+		out = append(out, Cluster{Nodes: node(8), Queues: []Queue{{Name: "q1", Deserved: 8, OverQuota: 1, Priority: 100}},
+			Jobs: []Job{victim("q1", 1, 2), taker("q1", 100, 4)}, Actions: acts})
+		// the mirror image: the small replica is the one that cannot be put back
+		out = append(out, Cluster{Nodes: node(8), Queues: []Queue{{Name: "q1", Deserved: 8, OverQuota: 1, Priority: 100}},
+			Jobs: []Job{victim("q1", 2, 1), taker("q1", 100, 4)}, Actions: acts})
+	}
+	// reclaim across queues: the victim's queue is over its quota, the taker's queue is within its own
+	out = append(out, Cluster{Nodes: node(8), Queues: []Queue{{Name: "q1", Deserved: 2, OverQuota: 1, Priority: 100},
+		{Name: "q2", Deserved: 6, OverQuota: 1, Priority: 100}},
+		Jobs: []Job{victim("q1", 1, 2), taker("q2", 50, 4)}, Actions: []string{"allocate", "reclaim"}})
+	return out
+}
+
 // ExtraStreams lets a property's own driver (harness/cmd/<id>) add case streams of its own to the run of that
 // property: the function is called with the run's output and root PRNG before the cases are flushed.
 var ExtraStreams = map[string]func(out *u.Out, root *u.Rng, n int) error{}
@@ -281,6 +319,16 @@ func Run(dir, prop string, seed uint64, n int) error {
 				out.NonTrivial(label)
 			}
 			_ = st
+		}
+	}
+	if prop == "C03" {
+		// fixed worlds: a running hierarchical gang (two grouping sub-group sets, one pod set each) is the only
+		// victim of a bigger workload; after the eviction only one of its replicas can be put back (seeded/C03-1)
+		for _, c := range gangCorpus() {
+			term, label, _ := Emit(c)
+			out.Add(fmt.Sprintf(wrap, term), "corpus "+label)
+			out.Count("corpus-cycles")
+			out.NonTrivial(label)
 		}
 	}
 	for i := 0; i < n; i++ {
